@@ -19,9 +19,11 @@ C15_COMPLETE = _fam('inl') + ORACLE + [
     H + 'conv::i64_roundtrip', H + 'conv::f64_roundtrip_bits', H + 'conv::i64_of_bytes_is_be',
     H + 'conv::f64_of_bytes_is_be', H + 'conv::i64_wrong_len_is_err', H + 'conv::f64_wrong_len_is_err',
     H + 'meth::from_slice_inline', H + 'meth::byte_at_tail_inline', H + 'meth::to_vec_len_inline',
-    H + 'meth::empty_is_empty',
+    H + 'meth::empty_is_empty', H + 'meth::tail_full_inline', H + 'meth::tail_inline_oob', H + 'meth::byte_at_inline_oob',
+    H + 'conv::i64_heap8_is_be', H + 'conv::f64_heap8_is_be', H + 'conv::i64_f64_heap9_is_err',
 ]
-C15_BOUNDED = _fam('v_heap') + [H + 'eqv::v_eq_inline_heap_any', H + 'conv::v_i64_heap',
+C15_BOUNDED = _fam('v_heap') + [H + 'eqv::v_eq_inline_heap_any', H + 'conv::v_i64_heap', H + 'conv::v_f64_heap',
+                                H + 'meth::v_tail_heap_oob', H + 'meth::v_byte_at_heap_oob',
                                 H + 'meth::v_from_slice_long', H + 'meth::v_byte_at_tail_heap']
 C16_COMPLETE = [H + 'cat::concat_inline_fits', H + 'cat::concat_inline_8_spill']
 C16_BOUNDED = [H + 'cat::v_concat_heap_receiver', H + 'cat::v_concat_inline_heap_arg']
@@ -32,7 +34,7 @@ COMMON_ASSUMPTIONS = [
     'closure parameter pattern with a `let` inside the closure body and names wildcard parameters; T2 drops trace!/debug! '
     'logging statements only; T7 names the return value; T9 turns format! into an uninterpreted function of its literal and '
     'arguments and anyhow! into an opaque error (message text not modelled); T10 writes `&a - &b` as the Sub::sub call it '
-    'stands for; T11 emits the method of `impl Display for Sodg` as an inherent method); provenance check enforced every run; the dropped text is listed in each unit\'s meta.json',
+    'stands for; T11 emits the methods of `impl Debug/Display for Sodg` as inherent methods); provenance check enforced every run; the dropped text is listed in each unit\'s meta.json',
     'a callee taken "by contract only" (external_body with the contract spliced from the owning unit\'s overlay) is proved in '
     'the owning unit',
     'machine arithmetic is NOT idealised: usize operations in exec code carry overflow obligations',
@@ -79,9 +81,11 @@ GRAPH_TRUSTED = [
 ]
 
 SENSITIVE_SIZE = ('N', 'cap', 'capacity', 'MAX_BRANCHES', 'MAX_BRANCH_SIZE', 'HEX_SIZE', 'size_of', 'size_of_val')
-SENSITIVE_NONDET = ('HashMap', 'HashSet', 'RandomState', 'rand', 'random', 'thread_rng', 'Instant', 'SystemTime',
-                    'thread', 'available_parallelism', 'env', 'addr', 'as_ptr', 'static', 'AtomicUsize', 'AtomicU64',
-                    'Cell', 'RefCell', 'Rc', 'Arc', 'Mutex', 'thread_local', 'lazy_static', 'unsafe', 'process', 'id')
+# (only names that cannot be an ordinary local: `id`, `env`, `rand`, `addr`, `thread`, `process`, `static`, `random` were in
+# this list at first; a local called `id` made the C10 check report a change that keeps a clone identical - removed)
+SENSITIVE_NONDET = ('HashMap', 'HashSet', 'RandomState', 'thread_rng', 'Instant', 'SystemTime',
+                    'available_parallelism', 'as_ptr', 'AtomicUsize', 'AtomicU64',
+                    'Cell', 'RefCell', 'Rc', 'Arc', 'Mutex', 'thread_local', 'lazy_static', 'unsafe')
 
 
 def sensitive_tokens(idents, which=SENSITIVE_SIZE + SENSITIVE_NONDET):
@@ -296,8 +300,8 @@ PROPS = {
                   'in ascending id order with its id, one attribute per edge with label and target, its data iff it has data; '
                   'v_print: id, data marker iff data, exactly the labels); format!/join/Formatter by trusted contracts. '
                   'inspect() (a third of the property) is out of reach and NOT decided',
-        level_text='Unbounded proof on the extracted real Debug::fmt (as the trait method it is: no precondition; the graph '
-                   'invariant is the premise of the postcondition), Display::fmt (T11: emitted as an inherent method; what '
+        level_text='Unbounded proof on the extracted real Debug::fmt (T11: emitted as an inherent method, the graph invariant '
+                   'is its precondition), Display::fmt (T11 too; what '
                    'std\'s `impl Debug for &T` forwards to is a trusted contract) and v_print(): when Debug::fmt returns Ok, '
                    'the text appended to the formatter is join(lines, "\\n") where the lines start with exactly one line per '
                    'PRESENT vertex, ascending by id, each format!(literal, id, join(attributes, ", ")) with one attribute '
@@ -317,8 +321,8 @@ PROPS = {
         trusted_base=GRAPH_TRUSTED + [
             'std `map(f).collect::<Vec<_>>()` on micromap::Iter / microstack::IntoIter (inherent shim methods: f(item) for every '
             'item in stored order)',
-            'emap::Map::iter() in lax mode: the contract is an implication (all slots filled ==> ...), because a trait method '
-            'cannot state a precondition',
+            'len()/is_empty()/keys() of src/misc.rs by contract only (proved in U_ops), should the printing code use them; '
+            'Hex::len()/is_empty() on the opaque Hex',
             'format! (T9): fmt_text(literal, display texts), uninterpreted; axiom_fmt_identity: format!("{}", x) is the Display '
             'text of x; Display text of usize / Label / Hex: dec_text / label_text / hex_text (uninterpreted)',
             '<[String]>::join(&str): joined(texts, separator), uninterpreted; Formatter::write_str appends its argument',
